@@ -123,13 +123,13 @@ theorem isWalk_ewalk (g : Graph) (hs : g.simpleB = true) : ∀ (es : List Nat) (
 theorem dijkScan_cons (u : Nat) (du : Int) (w : Nat) (c : Int) (e : Nat) (r : List (Nat × Int × Nat)) (f : FrontierP) :
     dijkScan u du ((w, c, e) :: r) f = dijkScan u du r (f.update w (du + c) u e) := rfl
 
-theorem dijkLoop_succ (adjE : Array (List (Nat × Int × Nat))) (pick : List Nat → Nat) (fuel : Nat) (f : FrontierP) :
+theorem dijkLoop_succ (adjE : Array (List (Nat × Int × Nat))) (pick : Pick) (fuel : Nat) (f : FrontierP) :
     dijkLoop adjE pick (fuel + 1) f =
       if f.queue.isEmpty then f
-      else match f.dist[pick f.toF.minNodes]! with
+      else match f.dist[pick fuel f.toF.minNodes]! with
         | none => f
-        | some du => dijkLoop adjE pick fuel (dijkScan (pick f.toF.minNodes) du adjE[pick f.toF.minNodes]!
-            { f with queue := f.queue.erase (pick f.toF.minNodes) }) := rfl
+        | some du => dijkLoop adjE pick fuel (dijkScan (pick fuel f.toF.minNodes) du adjE[pick fuel f.toF.minNodes]!
+            { f with queue := f.queue.erase (pick fuel f.toF.minNodes) }) := rfl
 
 theorem below_none (x : Int) : Below none x := fun l hl => by cases hl
 
@@ -158,7 +158,7 @@ theorem dijkScan_inv {wOf : Nat → Int} (hE : AdjEOK adjE wOf) {s u : Nat} {du 
     have := hP u huP
     exact this.trans hdu
 
-theorem dijkLoop_inv {wOf : Nat → Int} (hE : AdjEOK adjE wOf) (pick : List Nat → Nat) (hp : PickOK pick) {s : Nat} :
+theorem dijkLoop_inv {wOf : Nat → Int} (hE : AdjEOK adjE wOf) (pick : Pick) (hp : PickOK pick) {s : Nat} :
     ∀ (fuel : Nat) (f : FrontierP) (P : List Nat) (u : Nat), FInv (projAdj adjE) none s f.toF P u [] → PInv adjE s f →
       adjE.size + 1 ≤ fuel + P.length →
       ∃ P' u', FInv (projAdj adjE) none s (dijkLoop adjE pick fuel f).toF P' u' [] ∧
@@ -176,16 +176,16 @@ theorem dijkLoop_inv {wOf : Nat → Int} (hE : AdjEOK adjE wOf) (pick : List Nat
       exact ⟨P, u0, h1, h2, List.isEmpty_iff.1 hq⟩
     · rw [if_neg hq]
       have hne : f.toF.queue ≠ [] := fun e => hq (List.isEmpty_iff.2 e)
-      obtain ⟨du, hu, hdu, _, hmin⟩ := pick_spec pick hp f.toF hne h1.qLab
-      have hdu' : f.dist[pick f.toF.minNodes]! = some du := hdu
+      obtain ⟨du, hu, hdu, _, hmin⟩ := pick_spec pick hp fuel f.toF hne h1.qLab
+      have hdu' : f.dist[pick fuel f.toF.minNodes]! = some du := hdu
       rw [hdu']
       simp only []
       have hpop := h1.pop hE.ok hu hdu hmin
       rw [projAdj_get] at hpop
-      have hscan := dijkScan_inv hE (s := s) (du := du) (List.mem_cons_self (a := pick f.toF.minNodes) (l := P))
-        adjE[pick f.toF.minNodes]! { f with queue := f.queue.erase (pick f.toF.minNodes) } (fun p hp => hp) hdu'
+      have hscan := dijkScan_inv hE (s := s) (du := du) (List.mem_cons_self (a := pick fuel f.toF.minNodes) (l := P))
+        adjE[pick fuel f.toF.minNodes]! { f with queue := f.queue.erase (pick fuel f.toF.minNodes) } (fun p hp => hp) hdu'
         hpop (h2.queue _)
-      exact dijkLoop_inv hE pick hp fuel _ (pick f.toF.minNodes :: P) (pick f.toF.minNodes) hscan.1 hscan.2
+      exact dijkLoop_inv hE pick hp fuel _ (pick fuel f.toF.minNodes :: P) (pick fuel f.toF.minNodes) hscan.1 hscan.2
         (by simp only [List.length_cons]; omega)
 
 /-! ### the path -/
@@ -262,7 +262,7 @@ theorem chain_nd (g : Graph) (hs : g.simpleB = true) {r : Nat} {F : FrontierP} (
 /-- **`parmcb::dijkstra`, literal, every heap behaviour**: after the loop every vertex `t ≠ s` reachable from `s` has a
 predecessor record, and walking the records back from `t` yields the edges of a shortest walk between `t` and `s`
 without repeated edge; an unreachable vertex has no record -/
-theorem dijkstraP_path (g : Graph) (hs : g.simpleB = true) (hp : g.positiveB = true) (pick : List Nat → Nat)
+theorem dijkstraP_path (g : Graph) (hs : g.simpleB = true) (hp : g.positiveB = true) (pick : Pick)
     (hpick : PickOK pick) (s t : Nat) (hsn : s < g.n) (htn : t < g.n) (hst : s ≠ t)
     (hreach : ∃ es, (∀ e ∈ es, e < g.m) ∧ isWalk g es s t = true) :
     let p := pathBack (dijkstraP g pick s) (g.n + 1) t
@@ -469,15 +469,15 @@ theorem transfer_mcb (g : Graph) (hp : g.positiveB = true) (R : List Nat) (hR : 
 /-! ### the cycle of one dropped edge -/
 
 /-- the spanner path of `nonSpannerCycle`, as edge ids of `g` (order: from the target back to the source) -/
-def spPath (g : Graph) (R : List Nat) (pick : List Nat → Nat) (e : Nat) : List Nat :=
+def spPath (g : Graph) (R : List Nat) (pick : Pick) (e : Nat) : List Nat :=
   (pathBack (dijkstraP (spannerGraph g R) pick (g.src e)) (g.n + 1) (g.tgt e)).map fun i => R.getD i 0
 
-theorem nonSpannerCycle_eq (g : Graph) (R : List Nat) (pick : List Nat → Nat) (e : Nat) :
+theorem nonSpannerCycle_eq (g : Graph) (R : List Nat) (pick : Pick) (e : Nat) :
     nonSpannerCycle g R pick e =
       (spPath g R pick e ++ [e], ((spPath g R pick e ++ [e]).map g.weight).sum) := rfl
 
 theorem spPath_spec (g : Graph) (hs : g.simpleB = true) (hp : g.positiveB = true) (R : List Nat) (hR : R.Nodup)
-    (hRm : ∀ e ∈ R, e < g.m) (pick : List Nat → Nat) (hpick : PickOK pick) (e : Nat) (he : e < g.m)
+    (hRm : ∀ e ∈ R, e < g.m) (pick : Pick) (hpick : PickOK pick) (e : Nat) (he : e < g.m)
     (hreach : ∃ es : List Nat, (∀ f ∈ es, f ∈ R) ∧ isWalk g es (g.src e) (g.tgt e) = true) :
     (spPath g R pick e).Nodup ∧ (∀ f ∈ spPath g R pick e, f ∈ R) ∧
     isWalk g (spPath g R pick e) (g.tgt e) (g.src e) = true ∧
@@ -520,53 +520,53 @@ theorem assemble_gen (g : Graph) (hs : g.simpleB = true) (hp : g.positiveB = tru
     (R D : List Nat) (hpart : (R ++ D).Perm (List.range g.m))
     (hstretch : ∀ e ∈ D, ∃ q : List Nat, (∀ x ∈ q, x ∈ R) ∧ isWalk g q (g.src e) (g.tgt e) = true ∧
       C05.listWeight g q ≤ T * g.weight e)
-    (cs : List (List Nat)) (hcs : IsMCB (spannerGraph g R) cs) (pick : List Nat → Nat) (hpick : PickOK pick) :
-    IsBasis g (translateSp R cs ++ D.map fun e => setOf (nonSpannerCycle g R pick e).1) ∧
+    (cs : List (List Nat)) (hcs : IsMCB (spannerGraph g R) cs) (pickD : Nat → Pick) (hpickD : ∀ e, PickOK (pickD e)) :
+    IsBasis g (translateSp R cs ++ D.map fun e => setOf (nonSpannerCycle g R (pickD e) e).1) ∧
     (∀ B, IsBasis g B →
-      totalWeight g (translateSp R cs ++ D.map fun e => setOf (nonSpannerCycle g R pick e).1) ≤ T * totalWeight g B) ∧
-    totalWeight g (translateSp R cs ++ D.map fun e => setOf (nonSpannerCycle g R pick e).1) =
-      totalWeight (spannerGraph g R) cs + (D.map fun e => (nonSpannerCycle g R pick e).2).sum := by
+      totalWeight g (translateSp R cs ++ D.map fun e => setOf (nonSpannerCycle g R (pickD e) e).1) ≤ T * totalWeight g B) ∧
+    totalWeight g (translateSp R cs ++ D.map fun e => setOf (nonSpannerCycle g R (pickD e) e).1) =
+      totalWeight (spannerGraph g R) cs + (D.map fun e => (nonSpannerCycle g R (pickD e) e).2).sum := by
   have hndRD : (R ++ D).Nodup := hpart.nodup_iff.2 List.nodup_range
   have hR : R.Nodup := (List.nodup_append.1 hndRD).1
   have hRm : ∀ e ∈ R, e < g.m := fun e he => List.mem_range.1 (hpart.mem_iff.1 (List.mem_append_left _ he))
   have hDm : ∀ e ∈ D, e < g.m := fun e he => List.mem_range.1 (hpart.mem_iff.1 (List.mem_append_right _ he))
   have hdisj : ∀ e, e ∈ R → e ∈ D → False := fun e h1 h2 => (List.nodup_append.1 hndRD).2.2 e h1 e h2 rfl
   obtain ⟨t1, t2, t3, t4⟩ := transfer_mcb g hp R hR hRm cs hcs
-  have hspec : ∀ e ∈ D, _ := fun e he => spPath_spec g hs hp R hR hRm pick hpick e (hDm e he)
+  have hspec : ∀ e ∈ D, _ := fun e he => spPath_spec g hs hp R hR hRm (pickD e) (hpickD e) e (hDm e he)
     (by obtain ⟨q, q1, q2, _⟩ := hstretch e he; exact ⟨q, q1, q2⟩)
   -- the paths, oriented from the source to the target
-  have hget : ∀ (i : Nat) p e, (D.map fun e => (spPath g R pick e).reverse)[i]? = some p → D[i]? = some e →
-      p = (spPath g R pick e).reverse ∧ e ∈ D := by
+  have hget : ∀ (i : Nat) p e, (D.map fun e => (spPath g R (pickD e) e).reverse)[i]? = some p → D[i]? = some e →
+      p = (spPath g R (pickD e) e).reverse ∧ e ∈ D := by
     intro i p e h1 h2
     rw [List.getElem?_map, h2] at h1
     simp only [Option.map_some, Option.some.injEq] at h1
     exact ⟨h1.symm, List.mem_of_getElem? h2⟩
-  have hpwalk : ∀ (i : Nat) p e, (D.map fun e => (spPath g R pick e).reverse)[i]? = some p → D[i]? = some e →
+  have hpwalk : ∀ (i : Nat) p e, (D.map fun e => (spPath g R (pickD e) e).reverse)[i]? = some p → D[i]? = some e →
       p.Nodup ∧ (∀ f ∈ p, f ∈ R) ∧ isWalk g p (g.src e) (g.tgt e) = true := by
     intro i p e h1 h2
     obtain ⟨rfl, he⟩ := hget i p e h1 h2
     obtain ⟨s1, s2, s3, _⟩ := hspec e he
     exact ⟨((List.reverse_perm _).nodup_iff).2 s1, fun f hf => s2 f (List.mem_reverse.1 hf), KmmL.isWalk_reverse g _ _ _ s3⟩
-  have hpshort : ∀ (i : Nat) p e, (D.map fun e => (spPath g R pick e).reverse)[i]? = some p → D[i]? = some e →
+  have hpshort : ∀ (i : Nat) p e, (D.map fun e => (spPath g R (pickD e) e).reverse)[i]? = some p → D[i]? = some e →
       ∀ es : List Nat, (∀ f ∈ es, f ∈ R) → isWalk g es (g.src e) (g.tgt e) = true →
         C05.listWeight g p ≤ C05.listWeight g es := by
     intro i p e h1 h2 es hes hw
     obtain ⟨rfl, he⟩ := hget i p e h1 h2
     rw [KmmL.listWeight_reverse]
     exact (hspec e he).2.2.2 es hes hw
-  have hfam : C05.emitted (translateSp R cs) (D.map fun e => (spPath g R pick e).reverse) D =
-      translateSp R cs ++ D.map fun e => setOf (nonSpannerCycle g R pick e).1 := by
+  have hfam : C05.emitted (translateSp R cs) (D.map fun e => (spPath g R (pickD e) e).reverse) D =
+      translateSp R cs ++ D.map fun e => setOf (nonSpannerCycle g R (pickD e) e).1 := by
     unfold C05.emitted
     rw [zip_map_self]
     congr 1
     apply List.map_congr_left
     intro e _
-    show setOf (edgeCycle (spPath g R pick e).reverse e) = setOf (spPath g R pick e ++ [e])
+    show setOf (edgeCycle (spPath g R (pickD e) e).reverse e) = setOf (spPath g R (pickD e) e ++ [e])
     exact BiSearchL.setOf_perm' ((List.reverse_perm _).append_right [e])
-  have hbasis := C05.c05_basis g hs R D (translateSp R cs) (D.map fun e => (spPath g R pick e).reverse)
+  have hbasis := C05.c05_basis g hs R D (translateSp R cs) (D.map fun e => (spPath g R (pickD e) e).reverse)
     { part := hpart, bs_even := t1.1, bs_indep := t2, bs_spans := t1.2, plen := by rw [List.length_map],
       pwalk := hpwalk }
-  have X : KmmL.Ctx g T R D (D.map fun e => (spPath g R pick e).reverse) :=
+  have X : KmmL.Ctx g T R D (D.map fun e => (spPath g R (pickD e) e).reverse) :=
     { hs := hs, hp := hp, hT := hT, part := hpart, plen := by rw [List.length_map], pwalk := hpwalk,
       pshort := hpshort, stretch := hstretch }
   rw [hfam] at hbasis
@@ -583,7 +583,7 @@ theorem assemble_gen (g : Graph) (hs : g.simpleB = true) (hp : g.positiveB = tru
     apply List.map_congr_left
     intro e he
     obtain ⟨s1, s2, _, _⟩ := hspec e he
-    show wt g (setOf (spPath g R pick e ++ [e])) = ((spPath g R pick e ++ [e]).map g.weight).sum
+    show wt g (setOf (spPath g R (pickD e) e ++ [e])) = ((spPath g R (pickD e) e ++ [e]).map g.weight).sum
     rw [CertL.wt_setOf]
     · rfl
     · refine List.nodup_append.2 ⟨s1, List.nodup_cons.2 ⟨List.not_mem_nil, List.nodup_nil⟩, ?_⟩
@@ -644,13 +644,13 @@ theorem approx_family (g : Graph) (hs : g.simpleB = true) (hp : g.positiveB = tr
     (exact : Graph → McbResult) (orderSp : List Nat)
     (hex : McbCorrect (spannerGraph g (constructSpanner g k scan).1) orderSp
       (exact (spannerGraph g (constructSpanner g k scan).1)))
-    (pickD : List Nat → Nat) (hpickD : PickOK pickD) (D' : List Nat) (hD' : D'.Perm (constructSpanner g k scan).2)
+    (pickD : Nat → Pick) (hpickD : ∀ e, PickOK (pickD e)) (D' : List Nat) (hD' : D'.Perm (constructSpanner g k scan).2)
     (ret : Int)
     (hret : ret = (exact (spannerGraph g (constructSpanner g k scan).1)).weight +
-      (D'.map fun e => (nonSpannerCycle g (constructSpanner g k scan).1 pickD e).2).sum) :
+      (D'.map fun e => (nonSpannerCycle g (constructSpanner g k scan).1 (pickD e) e).2).sum) :
     ApproxCorrect g k order0 (.ok
       (translateSp (constructSpanner g k scan).1 (exact (spannerGraph g (constructSpanner g k scan).1)).cycles ++
-        D'.map fun e => setOf (nonSpannerCycle g (constructSpanner g k scan).1 pickD e).1) ret) := by
+        D'.map fun e => setOf (nonSpannerCycle g (constructSpanner g k scan).1 (pickD e) e).1) ret) := by
   obtain ⟨hex1, hex2, _⟩ := hex
   have hpart := (Spanner.spanner_partition g k scan).1.trans (Spanner.scan_perm g scan hscan)
   have hpart' : ((constructSpanner g k scan).1 ++ D').Perm (List.range g.m) :=
@@ -668,13 +668,13 @@ theorem approxCore_correct (g : Graph) (hs : g.simpleB = true) (hp : g.positiveB
     (exact : Graph → McbResult) (orderSp : List Nat)
     (hex : McbCorrect (spannerGraph g (constructSpanner g k scan).1) orderSp
       (exact (spannerGraph g (constructSpanner g k scan).1)))
-    (pickD : List Nat → Nat) (hpickD : PickOK pickD) :
+    (pickD : Nat → Pick) (hpickD : ∀ e, PickOK (pickD e)) :
     ApproxCorrect g k order0 (approxCore g k scan exact pickD) := by
   have heq : approxCore g k scan exact pickD = .ok
       (translateSp (constructSpanner g k scan).1 (exact (spannerGraph g (constructSpanner g k scan).1)).cycles ++
-        (constructSpanner g k scan).2.map fun e => setOf (nonSpannerCycle g (constructSpanner g k scan).1 pickD e).1)
+        (constructSpanner g k scan).2.map fun e => setOf (nonSpannerCycle g (constructSpanner g k scan).1 (pickD e) e).1)
       ((exact (spannerGraph g (constructSpanner g k scan).1)).weight +
-        ((constructSpanner g k scan).2.map fun e => (nonSpannerCycle g (constructSpanner g k scan).1 pickD e).2).sum) := by
+        ((constructSpanner g k scan).2.map fun e => (nonSpannerCycle g (constructSpanner g k scan).1 (pickD e) e).2).sum) := by
     unfold approxCore
     rw [if_neg (by omega)]
     simp only [List.map_map, ApproxAlgoL.foldl_add_sum, Int.zero_add]
@@ -689,7 +689,7 @@ theorem approxCoreTbb_correct (g : Graph) (hs : g.simpleB = true) (hp : g.positi
     (exact : Graph → McbResult) (orderSp : List Nat)
     (hex : McbCorrect (spannerGraph g (constructSpanner g k scan).1) orderSp
       (exact (spannerGraph g (constructSpanner g k scan).1)))
-    (pickD : List Nat → Nat) (hpickD : PickOK pickD)
+    (pickD : Nat → Pick) (hpickD : ∀ e, PickOK (pickD e))
     (pushOrder : List Nat) (hpush : pushOrder.Perm (List.range (constructSpanner g k scan).2.length))
     (s : Sched) (hcov : s.Covers 0 (constructSpanner g k scan).2.length) :
     ApproxCorrect g k order0 (approxCoreTbb g k scan exact pickD pushOrder s) := by
@@ -697,23 +697,23 @@ theorem approxCoreTbb_correct (g : Graph) (hs : g.simpleB = true) (hp : g.positi
     have := hpush.map fun i => (constructSpanner g k scan).2.getD i 0
     rw [ApproxAlgoL.map_range_getD'] at this
     exact this
-  have hlen : (pushOrder.map fun i => nonSpannerCycle g (constructSpanner g k scan).1 pickD
+  have hlen : (pushOrder.map fun i => nonSpannerCycle g (constructSpanner g k scan).1 (pickD ((constructSpanner g k scan).2.getD i 0))
       ((constructSpanner g k scan).2.getD i 0)).length = (constructSpanner g k scan).2.length := by
     rw [List.length_map, hpush.length_eq, List.length_range]
-  have hsum : reduceSum (fun i => ((pushOrder.map fun i => nonSpannerCycle g (constructSpanner g k scan).1 pickD
+  have hsum : reduceSum (fun i => ((pushOrder.map fun i => nonSpannerCycle g (constructSpanner g k scan).1 (pickD ((constructSpanner g k scan).2.getD i 0))
       ((constructSpanner g k scan).2.getD i 0)).getD i ([], 0)).2) s =
       ((pushOrder.map fun i => (constructSpanner g k scan).2.getD i 0).map fun e =>
-        (nonSpannerCycle g (constructSpanner g k scan).1 pickD e).2).sum := by
+        (nonSpannerCycle g (constructSpanner g k scan).1 (pickD e) e).2).sum := by
     rw [C03.c03_reduce_sum _ 0 _ s hcov, Nat.sub_zero, ← hlen,
       ApproxAlgoL.map_range'_getD (fun p : List Nat × Int => p.2), List.map_map, List.map_map]
     rfl
   have heq : approxCoreTbb g k scan exact pickD pushOrder s = .ok
       (translateSp (constructSpanner g k scan).1 (exact (spannerGraph g (constructSpanner g k scan).1)).cycles ++
         (pushOrder.map fun i => (constructSpanner g k scan).2.getD i 0).map fun e =>
-          setOf (nonSpannerCycle g (constructSpanner g k scan).1 pickD e).1)
+          setOf (nonSpannerCycle g (constructSpanner g k scan).1 (pickD e) e).1)
       ((exact (spannerGraph g (constructSpanner g k scan).1)).weight +
         ((pushOrder.map fun i => (constructSpanner g k scan).2.getD i 0).map fun e =>
-          (nonSpannerCycle g (constructSpanner g k scan).1 pickD e).2).sum) := by
+          (nonSpannerCycle g (constructSpanner g k scan).1 (pickD e) e).2).sum) := by
     unfold approxCoreTbb
     rw [if_neg (by omega)]
     simp only []
@@ -724,11 +724,11 @@ theorem approxCoreTbb_correct (g : Graph) (hs : g.simpleB = true) (hp : g.positi
   exact ApproxAlgoL.approx_family g hs hp k hk scan hscan order0 ho0 exact orderSp hex pickD hpickD _ hD' _ rfl
 
 /-- `k = 0` is rejected and nothing is emitted -/
-theorem approxCore_k0 (g : Graph) (scan : List Nat) (exact : Graph → McbResult) (pickD : List Nat → Nat) :
+theorem approxCore_k0 (g : Graph) (scan : List Nat) (exact : Graph → McbResult) (pickD : Nat → Pick) :
     approxCore g 0 scan exact pickD = .error := by
   rfl
 
-theorem approxCoreTbb_k0 (g : Graph) (scan : List Nat) (exact : Graph → McbResult) (pickD : List Nat → Nat)
+theorem approxCoreTbb_k0 (g : Graph) (scan : List Nat) (exact : Graph → McbResult) (pickD : Nat → Pick)
     (pushOrder : List Nat) (s : Sched) : approxCoreTbb g 0 scan exact pickD pushOrder s = .error := by
   rfl
 
@@ -747,8 +747,8 @@ theorem approxCorrect_k1 (g : Graph) (order0 : List Nat) (o : ApproxOutcome) (h 
 
 theorem approxSigned_correct (g : Graph) (hs : g.simpleB = true) (hp : g.positiveB = true) (k : Nat) (hk : 1 ≤ k)
     (scan : List Nat) (hscan : scanOkB g scan = true) (order : List Nat) (ho : order.Perm (List.range g.n))
-    (pick : List Nat → Nat) (hpick : PickOK pick) (σ : Nat → List Nat → List Nat) (hσ : ∀ j S, (σ j S).Perm S)
-    (pickD : List Nat → Nat) (hpickD : PickOK pickD) :
+    (pick : Nat → PickFam) (hpick : ∀ j i L, PickOK (pick j i L)) (σ : Nat → List Nat → List Nat) (hσ : ∀ j S, (σ j S).Perm S)
+    (pickD : Nat → Pick) (hpickD : ∀ e, PickOK (pickD e)) :
     ApproxCorrect g k order (approxSigned g k scan order pick σ pickD) := by
   obtain ⟨hnd, hm⟩ := C06.retained_facts g k scan hscan
   have hss := ApproxAlgoL.sp_simple g hs _ hnd hm
@@ -759,7 +759,7 @@ theorem approxSigned_correct (g : Graph) (hs : g.simpleB = true) (hp : g.positiv
 theorem approxFvsTrees_correct (g : Graph) (hs : g.simpleB = true) (hp : g.positiveB = true) (k : Nat) (hk : 1 ≤ k)
     (scan : List Nat) (hscan : scanOkB g scan = true) (order : List Nat) (ho : order.Perm (List.range g.n))
     (picks : List Nat) (hpicks : ∀ x, x < g.n → x ∈ picks) (sorter : List Cand → List Cand) (hsort : SortOK sorter)
-    (pickD : List Nat → Nat) (hpickD : PickOK pickD) :
+    (pickD : Nat → Pick) (hpickD : ∀ e, PickOK (pickD e)) :
     ApproxCorrect g k order (approxFvsTrees g k scan order picks sorter pickD) := by
   obtain ⟨hnd, hm⟩ := C06.retained_facts g k scan hscan
   have hss := ApproxAlgoL.sp_simple g hs _ hnd hm
@@ -769,7 +769,7 @@ theorem approxFvsTrees_correct (g : Graph) (hs : g.simpleB = true) (hp : g.posit
 
 theorem approxIsoTrees_correct (g : Graph) (hs : g.simpleB = true) (hp : g.positiveB = true) (k : Nat) (hk : 1 ≤ k)
     (scan : List Nat) (hscan : scanOkB g scan = true) (order : List Nat) (ho : order.Perm (List.range g.n))
-    (sorter : List Cand → List Cand) (hsort : SortOK sorter) (pickD : List Nat → Nat) (hpickD : PickOK pickD) :
+    (sorter : List Cand → List Cand) (hsort : SortOK sorter) (pickD : Nat → Pick) (hpickD : ∀ e, PickOK (pickD e)) :
     ApproxCorrect g k order (approxIsoTrees g k scan order sorter pickD) := by
   obtain ⟨hnd, hm⟩ := C06.retained_facts g k scan hscan
   have hss := ApproxAlgoL.sp_simple g hs _ hnd hm
@@ -779,12 +779,12 @@ theorem approxIsoTrees_correct (g : Graph) (hs : g.simpleB = true) (hp : g.posit
 
 theorem approxSignedTbb_correct (g : Graph) (hs : g.simpleB = true) (hp : g.positiveB = true) (k : Nat) (hk : 1 ≤ k)
     (scan : List Nat) (hscan : scanOkB g scan = true) (order : List Nat) (ho : order.Perm (List.range g.n))
-    (pick : List Nat → Nat) (hpick : PickOK pick) (σ : Nat → List Nat → List Nat) (hσ : ∀ j S, (σ j S).Perm S)
+    (pick : Nat → PickFam) (hpick : ∀ j i L, PickOK (pick j i L)) (σ : Nat → List Nat → List Nat) (hσ : ∀ j S, (σ j S).Perm S)
     (perm : List Nat)
     (hperm : perm.Perm (List.range (createIndex (spannerGraph g (constructSpanner g k scan).1) order).dim))
     (scheds : Nat → List Nat → Sched)
     (hcovS : ∀ j S, (scheds j S).Covers 0 (if g.n ≤ S.length then g.n else S.length))
-    (pickD : List Nat → Nat) (hpickD : PickOK pickD)
+    (pickD : Nat → Pick) (hpickD : ∀ e, PickOK (pickD e))
     (pushOrder : List Nat) (hpush : pushOrder.Perm (List.range (constructSpanner g k scan).2.length))
     (s : Sched) (hcov : s.Covers 0 (constructSpanner g k scan).2.length) :
     ApproxCorrect g k order (approxSignedTbb g k scan order pick σ perm scheds pickD pushOrder s) := by
@@ -803,7 +803,7 @@ theorem approxFvsTreesTbb_correct (g : Graph) (hs : g.simpleB = true) (hp : g.po
           (createIndex (spannerGraph g (constructSpanner g k scan).1) order))
         (greedyFvs (reindex (spannerGraph g (constructSpanner g k scan).1)
           (createIndex (spannerGraph g (constructSpanner g k scan).1) order)) picks)).2.length)
-    (pickD : List Nat → Nat) (hpickD : PickOK pickD)
+    (pickD : Nat → Pick) (hpickD : ∀ e, PickOK (pickD e))
     (pushOrder : List Nat) (hpush : pushOrder.Perm (List.range (constructSpanner g k scan).2.length))
     (s : Sched) (hcov : s.Covers 0 (constructSpanner g k scan).2.length) :
     ApproxCorrect g k order (approxFvsTreesTbb g k scan order picks sorter scheds pickD pushOrder s) := by
@@ -819,7 +819,7 @@ theorem approxIsoTreesTbb_correct (g : Graph) (hs : g.simpleB = true) (hp : g.po
     (hcovS : ∀ j, (scheds j).Covers 0
       (isoCands (reindex (spannerGraph g (constructSpanner g k scan).1)
           (createIndex (spannerGraph g (constructSpanner g k scan).1) order))).2.length)
-    (pickD : List Nat → Nat) (hpickD : PickOK pickD)
+    (pickD : Nat → Pick) (hpickD : ∀ e, PickOK (pickD e))
     (pushOrder : List Nat) (hpush : pushOrder.Perm (List.range (constructSpanner g k scan).2.length))
     (s : Sched) (hcov : s.Covers 0 (constructSpanner g k scan).2.length) :
     ApproxCorrect g k order (approxIsoTreesTbb g k scan order sorter scheds pickD pushOrder s) := by
